@@ -382,7 +382,8 @@ def classify_base(res, ex, crate, r):
 
 TRUST_PATTERNS = [
     (r'#\[verifier::external_body\]\s*(?:#\[[^\]]*\]\s*)*(?:pub\s+)?(?:(?:proof|exec|spec|open|closed|uninterp|broadcast)\s+)*(fn|struct|enum)\s+(\w+)', 'external_body'),
-    (r'assume_specification\s*(?:<[^\[]*>)?\s*\[\s*([^\]]+)\]', 'assume_specification'),
+    (r'assume_specification\s*(?:<[^\[]*>)?\s*\[\s*((?:<\[[^\]]*\]>|[^\]])+)\]', 'assume_specification'),
+    (r'\baxiom\s+fn\s+(\w+)', 'axiom fn'),
     (r'uninterp\s+spec\s+fn\s+(\w+)', 'uninterp spec fn'),
     (r'\bassume\s*\(', 'assume('),
     (r'\badmit\s*\(', 'admit('),
